@@ -1265,10 +1265,12 @@ class CircuitIR(AbstractBaseIR):
         Union[str, ComputeVar]
             Either the backend variable or its name.
         """
+        # frontend paths (`node/op/var`) first: looking them up in the compute graph resolves their first component as a
+        # backend variable name, which fails for a node whose label equals the name of some variable (node `a`, variable `a`)
         try:
-            v = self[var]
-        except KeyError:
             v = self._front_to_back[var]
+        except KeyError:
+            v = self[var]
         return v.name if get_key else v
 
     def get_frontend_varname(self, var: str) -> str:
